@@ -14,7 +14,9 @@ How(key) == LET o == store[key]  n == store'[key] IN
 GNext ==
   \/ \E key \in Keys : Write(key) /\ Rec(Cmd("write", key.k, key.id, How(key), "", FALSE))
   \/ \E k \in Kinds : WatcherBatch(k) /\ Rec(Cmd("flush", k, 0, "", "", FALSE))
-  \/ (DDTake \/ DDAcquire \/ DDDrain \/ DLTake \/ DLReturn \/ DLTrigger) /\ UNCHANGED <<hist, done>>
+  \/ \E k \in Kinds : WatcherNoop(k) /\ Rec(Cmd("noop", k, 0, "", "", FALSE))
+  \/ (DDTake \/ DDAcquire \/ DDDrain \/ DLTake \/ DLReturn) /\ UNCHANGED <<hist, done>>
+  \/ DLTrigger /\ Rec(Cmd("dltrigger", "", 0, "", "", FALSE))   \* the delivery goroutine is released from its gate (verif hook)
   \/ \E c \in Ctrls : (CWake(c) \/ QGet(c)) /\ UNCHANGED <<hist, done>>
   \/ \E c \in Ctrls : (CRead(c) \/ QRun(c)) /\ Rec(Cmd("step", "", 0, "", c, FALSE))
   \/ \E c \in Ctrls : CUpdate(c) /\ Rec(Cmd("update", "", 0, "", c, FALSE))
